@@ -4,7 +4,7 @@
    panics.  [panics_gen f] takes as argument which of the three repairs are present
      c3de1fc  f_siglen   eipVerify tests len(signature) before indexing sig[64]
      c47eaee  f_nilbid   VerifyPreConfirmation tests c.Bid == nil
-     1f15f90  f_metrics  libp2p.New always creates the handshake failure counters
+     0c53096  f_metrics  libp2p.New always creates the handshake failure counters
    [panics] = all three present (the tree as it is now), [panics_v0] = none (the snapshot).
    The summaries are computed by the drivers with go-ethereum / math/big only (never with the
    function under test).  Definitions only.
